@@ -212,6 +212,8 @@ def mapping(method, version, all_reasons=False):
                 return True
         if chunk != 3:
             return True                      # chunking is the framing conditions' subject
+        if method in ("delete_attribute",) and msg not in ("", "m"):
+            return True                      # this route formats the message into the exception text (realises it)
         status = None
         for k in range(len(STATUSES)):
             if si == k:
